@@ -13,7 +13,7 @@ package circularQueue
 //@ define QInv(q) = q.Items != nil && q.MaxItems >= 1 && 0 <= len(q.Items) && len(q.Items) <= q.MaxItems && len(q.Items) <= q.NextIndex && forallint(k, has(q.Items, k) == (QLo(q) <= k && k < q.NextIndex))
 
 //@ type CircularQueue
-//@ guarded_by RWMutex: Items, NextIndex
+//@ guarded_by RWMutex: *
 
 //@ func NewCircularQueue
 //@ requires[C18] max >= 1
